@@ -421,6 +421,10 @@ class ModuleVistor(NodeVisitor):
                 # Modules live in packages only.
                 current.report("cannot re-export a module into something that is not a package :"
                                         f'{modname}.{origin_name}', thresh=1)
+            elif not isinstance(ob.parent, model.Module):
+                # The name is an alias of a member of a class (run = K.run): the member stays in its class.
+                current.report("cannot re-export a member of a class :"
+                                        f'{modname}.{origin_name}', thresh=1)
             else:
                 if origin_module.all is None or origin_name not in origin_module.all:
                     self.system.msg(
